@@ -27,6 +27,10 @@ SIZE_CONFIGS = [
     # two classes configured with the same size (they share the first heap of the chain)
     ['--pika:ini=pika.stacks.small_size=0x20000', '--pika:ini=pika.stacks.medium_size=0x20000'],
     ['--pika:ini=pika.stacks.small_size=0xc000', '--pika:ini=pika.stacks.large_size=0x100000'],
+    # sizes that are NOT increasing with the class: small above medium, large below medium (a recycled object of a smaller
+    # stack must never be handed to a class that was configured larger)
+    ['--pika:ini=pika.stacks.small_size=0x40000'],
+    ['--pika:ini=pika.stacks.small_size=0x30000', '--pika:ini=pika.stacks.large_size=0x18000'],
 ]
 # Findings this check knows about although /verif/known_findings.txt may not list them yet (the text for
 # known_findings.txt is in notes/C12.md); matched by signature exactly like entries of that file.
@@ -280,7 +284,7 @@ def main():
     cov = {
         'obligations': max(obligations, 1), 'discharged': discharged, 'checker_cmd': checker_cmd, 'trusted_base': TRUSTED,
         'evaluations': len(results), 'distinct_nontrivial': len(nontriv),
-        'rule': 'one swapdiff run (PRNG register files / target frames through the real swapcontext_stack, away and back, compared with the compiled Lean machine), one fpprobe run, and canary runs on the live runtime: every scheduling policy, 1-8 workers, guard pages on/off, four stack-size configurations (default, small, two classes equal, mixed), optional max_terminated_threads=1 and PRNG timing perturbation at the instrumented sites; a canary run is non-trivial when it contains tasks of all four stack classes, at least one recycled thread object, one migration between workers and one real suspension; distinct = distinct argv',
+        'rule': 'one swapdiff run (PRNG register files / target frames through the real swapcontext_stack, away and back, compared with the compiled Lean machine), one fpprobe run, and canary runs on the live runtime: every scheduling policy, 1-8 workers, guard pages on/off, six stack-size configurations (default, small, two classes equal, mixed, two non-monotone ones), optional max_terminated_threads=1 and PRNG timing perturbation at the instrumented sites; a canary run is non-trivial when it contains tasks of all four stack classes, at least one recycled thread object, one migration between workers and one real suspension; distinct = distinct argv',
         'samples': [' '.join(str(a) for a in r['argv']) for r in results[:5]],
         'traces_validated_against_impl': swaps_ok, 'transitions': 2 * swaps_ok,
         'programs': sum(1 for r in results if r['argv'][1] == 'canary'),
